@@ -349,9 +349,9 @@ void ProduceRetry(util::PCQueue<Elem> &queue, long v) {
   }
 }
 long ConsumeRetry(util::PCQueue<Elem> &queue) {
-  Elem out;
   while (true) {
-    try { queue.Consume(out); return out.v; } catch (const CopyFail &) {}
+    // the by-value overload (used by Chain::Wait, RecyclingThreadPool): it runs Consume(T&) inside, so both are covered
+    try { return queue.Consume().v; } catch (const CopyFail &) {}
   }
 }
 
